@@ -51,7 +51,7 @@ meta['valid'] = bool(meta['patch_applies'] and meta['demo_on_clean_exit'] == 0 a
 for c in checks:
     t0 = time.time()
     env = dict(os.environ, VERIF_REPO=scratch, VERIF_OUT=out)
-    r = subprocess.run(['./check', c, '--tier', tier], cwd='/verif', capture_output=True, text=True, env=env)
+    r = subprocess.run(['./check', c, '--tier', tier], cwd=os.environ.get('VERIF_DIR', '/verif'), capture_output=True, text=True, env=env)
     lines = r.stdout.splitlines()
     first = ''
     for i, l in enumerate(lines):
@@ -62,7 +62,7 @@ for c in checks:
                              'first': first, 'wall_s': round(time.time() - t0, 1), 'tier': tier,
                              'stderr_tail': r.stderr[-300:] if r.returncode not in (0, 1) else ''}
 meta['caught_by'] = [c for c, v in meta['checks_run'].items() if v['exit'] == 1]
-dst = f'/verif/seeded/{sid}'
+dst = os.path.join(os.environ.get('SEED_META_DIR', '/verif/seeded'), sid)
 os.makedirs(dst, exist_ok=True)
 shutil.copy(patch, os.path.join(dst, 'patch.diff'))
 shutil.copy(demo, os.path.join(dst, 'demo.py'))
